@@ -26,7 +26,7 @@ def build_result(tot, rule):
     res.rule = rule
     res.samples = tot["samples"]
     res.oracle_info = {"oracle_evaluations": tot["oracle_evals"], "oracle_violations": len(tot["violations"]),
-                       "systems_built": tot["built"]}
+                       "systems_built": tot["built"], "live_edited_systems": tot.get("live_cases", 0)}
     return res
 
 
@@ -37,6 +37,13 @@ def run(ctx, intensify=False):
     cvs, cn = syscases.run_corpus(PROP, ORACLES)
     tot["violations"] = cvs + tot["violations"]
     tot["oracle_evals"] += cn
+    # the same identities on systems reached by edits (live, not rebuilt)
+    from harness import engine_oracles as eo
+    louts = ctx.pmap(eo.live_accounting_shard, [(ctx.seed * 1000 + 500 + i, ctx.n(3, 40), GENKW) for i in range(ctx.nproc)])
+    for o in louts:
+        tot["violations"] += o["violations"]
+        tot["oracle_evals"] += o["evals"]
+    tot["live_cases"] = sum(o["cases"] for o in louts)
     return build_result(tot, "random well-formed systems (1-4 usage patterns sharing journeys, jobs, servers, networks, "
                              "countries; step durations 0..2.5 h, request durations sub-second..3.2 h, job multiplicities "
                              "up to 4; random units, zones and start dates); distinct = distinct spec hash, non-trivial "
